@@ -803,7 +803,13 @@ LEVEL_TEXT = ("Proved in Lean: the gate lets exactly SCHEMA_VERSION (regenerated
               "pyInt) and the gate on strings is proved to accept exactly the spellings of SCHEMA_VERSION as an integer "
               "literal (gateStr_exact), never a string containing a character outside digits/_/+/-/blanks (pyInt_rejects; "
               "'2.1', '2rc1' raise ValueError: gateStr_no_dot), to agree with the numeric gate on every number signac itself "
-              "writes (pyInt_repr, gateStr_nat, gateStr_declared). The compiled model is compared with the real functions on every configuration "
+              "writes (pyInt_repr, gateStr_nat, gateStr_declared). String-typed layers of the discovery and migration models "
+              "(Signac/DiscoveryS.lean, MigrationS.lean: the raw config value, int() on it, ValueError as a result) refine the numeric "
+              "models wherever every declared version is an integer literal (stringLayer_refines, migrationLayer_refines), and for ANY "
+              "tree a config whose value is not a spelling of SCHEMA_VERSION makes Project / get_project / init_project / get_job fail "
+              "with an empty step list, the upward search stopping there (gate_refuses_strings, gate_refuses_absent_key); whatever is "
+              "returned declares a spelling of SCHEMA_VERSION (accepts_only_schema); the migration of '1.0' raises ValueError with the "
+              "project untouched (migrate_valueError). The compiled model is compared with the real functions on every configuration "
               "(result class and the complete observed final state of the project root).")
 LEVEL_NOTE = ("Trusted: Lean kernel; axioms propext/Classical.choice/Quot.sound; the harness (hand-written project builder, "
               "observer that digests sub-trees into tokens, content oracle). Job data is an opaque token in the model: "
